@@ -1,6 +1,6 @@
 SPECIFICATION Spec
 CONSTANTS
-  Family = "failing"
+  Family = "partialstart"
   MaxEm = 3
   EvPerEm = 1
   FixD3 = TRUE
